@@ -175,6 +175,20 @@ def cases(draw):
     mk = draw(market.dense_markets(names, d0, (d1 - d0).days))
     cfg, lab = draw(sessgen.full_config(names, start, end, alpha_kinds=('fixed', 'single', 'single', 'cycle'), sched=sched,
                                         entry_kinds=('before', 'start', 'on', 'after1m', 'mid', 'after_end', 'none')))
+    if cfg['universe']['kind'] == 'dynamic' and cfg['alpha']['kind'] == 'single' and draw(st.booleans()):
+        # members also leave again: a user-defined universe (an asset held when it leaves is liquidated and then
+        # disappears from the weight vectors)
+        inst_ = sessgen.instants(sched, start, end)
+        spans = {}
+        for a_, lo_ in cfg['universe']['dates'].items():
+            hi_ = draw(sessgen.moment(start, end, inst_, ('mid', 'mid', 'on', 'none')))[1]
+            spans[a_] = [lo_, hi_]
+        cfg['universe'] = {'kind': 'window', 'spans': spans}
+        lab = lab + ['members_leave_the_universe']
+    if draw(st.sampled_from([False, False, False, True])) and sessgen.add_watched(
+            draw, cfg, mk, names, d0, (d1 - d0).days, draw(st.integers(0, 10 ** 6))):
+        # the session is given signals that also watch a symbol whose file starts a few days in
+        lab = lab + ['signals_watching_a_symbol_without_quotes_at_first']
     return {'cfg': cfg, 'market': mk, 'labels': lab,
             'reserve': draw(st.sampled_from([None, None, None, 250000.0, 0.5])),
             'preflight': draw(st.sampled_from([False, False, True]))}
